@@ -298,7 +298,7 @@ def compare(rk, got, ref, scale):
     (gs, gv), (rs, rv) = got, ref
     if tuple(gs) != tuple(rs):
         return False
-    for a, b in zip(gv, rv):
+    for k, (a, b) in enumerate(zip(gv, rv)):
         if numpy.isnan(a) or numpy.isnan(b):
             if not (numpy.isnan(a) and numpy.isnan(b)):
                 return False
@@ -306,6 +306,8 @@ def compare(rk, got, ref, scale):
             if a != b:
                 return False
         elif abs(a - b) > tol:
+            if k == 3 and len(gs) == 3 and gs[2] == "tau" and abs(a * abs(a) - b * abs(b)) <= tol * scale:
+                continue      # tau = sign * sqrt|t^2 - p^2| next to the light cone is the square root of a rounding residue: compared as tau2
             return False
     return True
 
@@ -339,7 +341,7 @@ def _integral(c):
     return all(t[2] == 1 for t in c["a"]) and all(t[2] == 1 for t in (c["b"] or []))
 
 
-def run_group(key, cases, full, only_int=False):
+def run_group(key, cases, full, only_int=False, chunk=0):
     import awkward as ak
     import vector
 
@@ -348,7 +350,7 @@ def run_group(key, cases, full, only_int=False):
         # integer-typed arrays: the integral operand tuples of the group, in Cartesian storage
         ints = [c for c in cases if _integral(c)]
         if len(ints) >= 2:
-            r, c_, n_ = run_group(key, ints, full, only_int=True)
+            r, c_, n_ = run_group(key, ints, full, only_int=True, chunk=chunk)
             recs += r
             calls += c_
     op, na, nb, fixed = json.loads(key)
@@ -364,12 +366,10 @@ def run_group(key, cases, full, only_int=False):
     n = len(cases)
     va = [algebra.vec_of(c["a"]) for c in cases]
     vb = [algebra.vec_of(c["b"]) for c in cases] if nb else None
-    sigsa = [s for s in coords.signatures(na) if all(coords.representable(v, s) for v in va)]
-    sigsb = [s for s in coords.signatures(nb) if all(coords.representable(v, s) for v in vb)] if nb else [None]
-    if not sigsa or not sigsb:
-        return recs, 0, 0
+    sigsa = list(coords.signatures(na))
+    sigsb = list(coords.signatures(nb)) if nb else [None]
     combos = list(itertools.product(sigsa, sigsb))
-    h = hsh(key)
+    h = hsh(key, chunk)          # each chunk of a big group visits other coordinate-system pairings
     if only_int:
         combos = [(coords.CANON[na], coords.CANON[nb] if nb else None)]
     elif not full:
@@ -378,12 +378,14 @@ def run_group(key, cases, full, only_int=False):
         combos = [combos[(h + 5 * k) % len(combos)] for k in range(12)]
     pvals = [scalar_params(c) for c in cases]
     nparams = len(pvals[0])
+    cases_all, va_all, vb_all, pvals_all = cases, va, vb, pvals
     scale = 1 + max([abs(float(x)) for v in va for x in v] + ([abs(float(x)) for v in vb for x in v] if vb else []))
     scale = scale * scale * 10
     # the operator / ufunc spellings are table entries per record name (Vector2D ... Momentum4D): both flavors always
     both = op in OPFORMS or op in ("np_sqrt", "np_cbrt", "np_power")
     combos = [(sa, sb, fl) for sa, sb in combos for fl in ((0, 1) if both and not only_int else (None,))]
-    for sa, sb, fl in combos:
+    def do_combo(sa, sb, fl, cases, va, vb, pvals, n, retry=True):
+        nonlocal calls
         fa = "momentum" if hsh(key, sa, "fa") % 2 else "generic"
         fb = "momentum" if hsh(key, sb, "fb") % 2 else "generic"
         if fl is not None:
@@ -400,8 +402,15 @@ def run_group(key, cases, full, only_int=False):
                     refs.append(ref_value(rk, call(op, A, B, [numpy.float64(x) for x in pvals[i]], fixed, OPFORMS.get(op, ["method"])[0])))
                 except Exception as ex:
                     refs.append(("error", type(ex).__name__))
-        if any(isinstance(r, tuple) and r and r[0] == "error" for r in refs):
-            continue
+        bad = {i for i, r in enumerate(refs) if isinstance(r, tuple) and r and r[0] == "error"}
+        if bad:
+            # operand tuples on which the object backend itself raises (singular): left out, the others still run
+            ok = [i for i in range(n) if i not in bad]
+            if len(ok) % 2:
+                ok = ok[:-1]
+            if retry and len(ok) >= 2:
+                do_combo(sa, sb, fl, [cases[i] for i in ok], [va[i] for i in ok], [vb[i] for i in ok] if nb else None, [pvals[i] for i in ok], len(ok), retry=False)
+            return
         namesa = coords.field_names(sa)
         fa_eff = fa if op not in algebra.MOMENTUM_ONLY else "momentum"
         if fa_eff == "momentum":
@@ -482,6 +491,23 @@ def run_group(key, cases, full, only_int=False):
                             nbad += 1
                             if nbad >= 8:
                                 break
+
+    total_n = 0
+    for sa, sb, fl in combos:
+        # the operand tuples this pairing can store (an on-axis vector has no eta, ...): the others are left out of this
+        # pairing instead of removing the pairing for the whole group
+        keep = [i for i in range(len(cases)) if coords.representable(va_all[i], sa) and (not nb or coords.representable(vb_all[i], sb))]
+        if nb:
+            pass
+        # elements on which the object backend itself raises (singular operands) are left out too
+        if len(keep) % 2:
+            keep = keep[:-1]
+        if len(keep) < 2:
+            continue
+        do_combo(sa, sb, fl, [cases_all[i] for i in keep], [va_all[i] for i in keep], [vb_all[i] for i in keep] if nb else None,
+                 [pvals_all[i] for i in keep], len(keep))
+        total_n = max(total_n, len(keep))
+    n = total_n
     return recs, calls, n
 
 
@@ -490,10 +516,10 @@ def worker(args):
     out = {"records": [], "calls": 0, "elements": 0, "groups": 0}
     for key, cases in groups:
         try:
-            r, c, n = run_group(key, cases, full)
+            r, c, n = run_group(key[0], cases, full, chunk=key[1]) if isinstance(key, tuple) else run_group(key, cases, full)
         except Exception as ex:
             from . import common as _c
-            r, c, n = [_c.crash_record(json.loads(key)[0], ex, group=key)], 0, 0
+            r, c, n = [_c.crash_record(json.loads(key[0] if isinstance(key, tuple) else key)[0], ex, group=key)], 0, 0
         out["records"] += r
         out["calls"] += c
         out["elements"] += n * c
@@ -514,7 +540,7 @@ def replay(cases, full=False, procs=16):
     split = []
     for key, cs in items:
         for k in range(0, len(cs), 40):
-            split.append((key, cs[k:k + 40]))
+            split.append(((key, k // 40), cs[k:k + 40]))
             if not full and k >= 80:
                 break
     n = max(1, min(procs, len(split)))
